@@ -431,15 +431,19 @@ func (fx *Fixture) Serve(r *http.Request) (rec *httptest.ResponseRecorder, panic
 	return serveOn(fx.Mux, r)
 }
 
-func serveOn(h http.Handler, r *http.Request) (rec *httptest.ResponseRecorder, panicked interface{}) {
+func serveOn(h http.Handler, r *http.Request, w ...http.ResponseWriter) (rec *httptest.ResponseRecorder, panicked interface{}) {
 	rec = httptest.NewRecorder()
+	var rw http.ResponseWriter = rec
+	if len(w) > 0 {
+		rw = w[0]
+	}
 	func() {
 		defer func() {
 			if p := recover(); p != nil {
 				panicked = p
 			}
 		}()
-		h.ServeHTTP(rec, r)
+		h.ServeHTTP(rw, r)
 	}()
 	return rec, panicked
 }
